@@ -74,7 +74,9 @@ def dataset_spec(draw, kind=None, n_obs=None, shape=None):
     else:
         if n_obs is None:
             n_obs = draw(st.one_of(st.integers(1, 6), st.integers(2, 8), st.integers(17, 40)))
-        n_ch = draw(st.integers(1, 4))
+        # (a sixth of the objects have 9-20 channels: regions of interest with interleaved voxels)
+        n_ch = draw(st.one_of(st.integers(1, 4), st.integers(1, 4), st.integers(1, 4), st.integers(1, 4),
+                              st.integers(2, 4), st.integers(9, 20)))
         n_time = draw(st.integers(1, 4))
     off_o = draw(st.integers(1, 20))
     off_c = draw(st.integers(1, 20))
